@@ -116,6 +116,11 @@ def build_cases(ctx) -> list[Case]:
                 text = P.mutate(rng, text, full)
             spec, store = cfgs[i % len(cfgs)]
             cases.append(Case(spec, store, [text], f'mutated/{notation}'))
+        # binding stress: two variables, quantifiers placed regardless of scope (vacuous / re-bound / free / sibling re-use)
+        for i in range(ctx.scale(1500, 15000)):
+            s = gen.binding(rng.randrange(2, 6))
+            spec, store = cfgs[i % 2]
+            cases.append(Case(spec, store if i % 2 == 0 else '0.0.1,1.0.2', [lw(s)], f'binding-stress/{notation}'))
         # long runs: digit runs around the int limit, deep nesting around the recursion limit
         for text in P.long_runs(notation, ctx.thorough):
             cases.append(Case(P.PySpec(notation), '-', [text], f'long-runs/{notation}', deep=True))
@@ -175,9 +180,28 @@ def run(ctx):
     dist: dict[str, int] = {}
     outcome_hist: dict[str, int] = {}
     py_answers, oracle_fails = [], {}
+    # history independence across parsers: a fixed probe set answered by FRESH parsers before anything else was
+    # parsed in this process must be answered the same way by fresh parsers after every case (state that leaks
+    # through module / class level is invisible to the per-case comparison with a fresh parser)
+    probes = [(P.PySpec('polish'), '-', t) for t in ('a', 'Kab', 'Fm', 'VxFx')] + \
+             [(P.PySpec('standard'), '-', t) for t in ('A', 'A & B', 'Fa', 'LxFx')]
+
+    def probe_answers():
+        return [P.py_parse(sp.parser(st), t)[0] for sp, st, t in probes]
+    ref_probe = probe_answers()
+    probe_broken = False
     for i, c in enumerate(cases):
         ans, fails = oracle(c)
         py_answers.append(ans)
+        if not probe_broken and (c.deep or len(c.texts) > 1 or i % 50 == 0):
+            now = probe_answers()
+            if now != ref_probe:
+                probe_broken = True
+                k = next(j for j, (x, y) in enumerate(zip(ref_probe, now)) if x != y)
+                sp, st, t = probes[k]
+                fails = fails + [(f'{PROP}:history:process-state:{sp.notation}',
+                                  f'a fresh {sp.notation} parser answered {ref_probe[k][:60]!r} for {t!r} at the start; after parsing '
+                                  f'{[x[:40] for x in c.texts][:4]} (length {[len(x) for x in c.texts][:4]}) on ANOTHER parser a fresh parser answers {now[k][:60]!r}')]
         dist[c.stream] = dist.get(c.stream, 0) + 1
         for a in ans:
             k = a.split(' ')[0]
